@@ -233,6 +233,53 @@ Definition has_flag (c : N) (flags : bytes) : bool := existsb (fun x => x =? c) 
 Definition check (n : N) (b : bool) (k : bytes) : bytes :=
   if b then k else bs "FAIL clause " ++ print_dec n.
 
+(* ---- the server-name grammar of the Matrix specification, closed form (independent of the
+   model of ParseAndValidateServerName): name = host [ ":" port ]; port = digits, value <= 65535
+   (no sign); host = dns-name (letters, digits, "-", ".") or "[" 2..45 IPv6 characters "]".
+   An unbracketed host made only of IPv6 characters is tolerated here: that the code accepts
+   unbracketed IPv4-mapped literals is a C17 finding, not a subject of C13. ---- *)
+Definition g_digit (c : N) : bool := (48 <=? c) && (c <=? 57).
+Definition g_dns_char (c : N) : bool :=
+  g_digit c || ((65 <=? c) && (c <=? 90)) || ((97 <=? c) && (c <=? 122)) || (c =? 45) || (c =? 46).
+Definition g_ipv6_char (c : N) : bool :=
+  g_digit c || ((65 <=? c) && (c <=? 70)) || ((97 <=? c) && (c <=? 102)) || (c =? 58) || (c =? 46).
+Definition g_port (p : bytes) : bool :=
+  negb (is_nil p) && forallb g_digit p && match parse_dec p with Some n => n <=? 65535 | None => false end.
+Definition g_dns_host (h : bytes) : bool := negb (is_nil h) && forallb g_dns_char h.
+Definition g_host (h : bytes) : bool :=
+  match h with
+  | [] => false
+  | c :: r =>
+      if c =? 91 then
+        match rev r with
+        | z :: rip => (z =? 93) && (2 <=? length rip)%nat && (length rip <=? 45)%nat && forallb g_ipv6_char rip
+        | [] => false
+        end
+      else forallb g_dns_char h || forallb g_ipv6_char h
+  end.
+(* split at the last colon *)
+Definition g_split (s : bytes) : option (bytes * bytes) :=
+  match split_at 58 (rev s) with
+  | Some (rp, rh) => Some (rev rh, rev rp)
+  | None => None
+  end.
+Definition g_server_name (s : bytes) : bool :=
+  g_host s || match g_split s with Some (h, p) => g_host h && g_port p | None => false end.
+(* the part of the grammar on which code and grammar must agree exactly *)
+Definition g_dns_server_name (s : bytes) : bool :=
+  g_dns_host s || match g_split s with Some (h, p) => g_dns_host h && g_port p | None => false end.
+
+(* oracle for C13.server_name: [name; verdict of ParseAndValidateServerName] *)
+Definition prop_server_name (args : list bytes) : bytes :=
+  match args with
+  | [s; obs] =>
+      let accepted := bytes_eqb obs (bs "true") in
+      if accepted && negb (g_server_name s) then bs "FAIL accepted a name outside the grammar (host [: port<=65535])"
+      else if negb accepted && g_dns_server_name s then bs "FAIL refused a DNS name with a valid port"
+      else bs "ok"
+  | _ => bs "badargs"
+  end.
+
 Definition prop_verify (args : list bytes) : bytes :=
   match rev args with
   | obs :: rargs =>
@@ -241,7 +288,12 @@ Definition prop_verify (args : list bytes) : bytes :=
       | Some sc =>
           let ls := split_all 10 obs in
           let accepted := match find_line (bs "code") ls with Some c => bytes_eqb c (bs "200") | None => false end in
-          if negb accepted then
+          (* 8: a request line (method, URI) that is not valid UTF-8 is refused, as unparsable:
+                400 -- decided on the transmitted strings alone *)
+          let bad_line := negb (utf8_valid (q_method (sc_q sc))) || negb (utf8_valid (q_uri (sc_q sc))) in
+          let code400 := match find_line (bs "code") ls with Some c => bytes_eqb c (bs "400") | None => false end in
+          if bad_line && negb code400 then bs "FAIL clause 8"
+          else if negb accepted then
             check 7 (negb (has_flag 72 (sc_flags sc))) (bs "ok")
           else
             match hex_field "m" ls, hex_field "u" ls, hex_field "o" ls, hex_field "d" ls, ohex_field "c" ls with
@@ -265,8 +317,8 @@ Definition prop_verify (args : list bytes) : bytes :=
                           | Some l => mem_bytes d l
                           | None => bytes_eqb d (rc_default rc)
                           end)
-                (* 3: the origin is a valid server name *)
-                (check 3 (valid_server_name o)
+                (* 3: the origin is a valid server name (grammar, closed form) *)
+                (check 3 (g_server_name o)
                 (* 4: what is reported is what was transmitted *)
                 (check 4 (bytes_eqb m (q_method q) && bytes_eqb u (q_uri q)
                           && match c with Some b => bytes_eqb b (q_body q) && negb (is_nil b)
@@ -315,6 +367,7 @@ Definition ops_C13 : list (bytes * (list bytes -> bytes)) :=
     (bs "C13.prop.verify", prop_verify);
     (bs "C13.parse_auth", run_parse_auth);
     (bs "C13.server_name", run_server_name);
+    (bs "C13.prop.server_name", prop_server_name);
     (bs "C13.content_type", run_content_type);
     (bs "C13.b64", run_b64);
     (bs "C13.safe", run_safe);
